@@ -1,7 +1,7 @@
 (* C16 -- converter output always belongs to the stream's current data.
    Model: theories/Tags.v (state machine of the manager's service loop); proofs: theories/TagsC16.v. *)
 From Coq Require Import List NArith Bool.
-From Pk Require Import Tags TagsC16 TagsC06 TagsC09 TagsC09T TagsC09A TagsC16C.
+From Pk Require Import Tags TagsC16 TagsC06 TagsC09 TagsC09T TagsC09A TagsC16C TagsC16S.
 Import ListNotations.
 Open Scope N_scope.
 
@@ -56,6 +56,17 @@ Theorem C16_detach_dequeues_partial :
   mem id (toconv st c) = true /\
   (mem id (t_m t) = false \/ exists k b, In (k, b) (tags (detach st n c)) /\ k <> n /\ tag_has_conv c b = true /\ mem id (t_m b) = true).
 Proof. exact detach_dequeues. Qed.
+
+(* A converter never feeds the tag it is attached to: in every state reached by any history (any switches, any
+   schedule) a live tag that keeps converters matches on neither stream data nor other tags.  attachConverterToTag
+   refuses such tags; since 7bcf2d3 UpdateTag also refuses to turn the query of a tag with converters into one
+   (before, `setconv tag/d [cva]` then `query tag/d "cdata:..."` was accepted and the tag was re-tagged by the
+   output of its own converters).  The harness checks the same on every state dump (converter-on-complex-tag). *)
+Theorem C16_tag_with_converters_is_simple :
+  forall k cs l n t,
+  tget n (tags (run k l (init cs))) = Some t -> t_conv t <> [] ->
+  d_data (t_def t) = false /\ d_refs (t_def t) = [].
+Proof. exact sc_reachable. Qed.
 
 (* The unrepaired code (switches on) violated it: both historical witnesses end with no job in flight,
    nothing queued and a cached output of an old version (reproduced on the Go code before d1a158c:
